@@ -690,6 +690,7 @@ fn live(ctx: &mut Ctx) {
         let loc = monitor::short_loc(&fp.location);
         ctx.violation("discovered-equals-announced", &format!("service-thread-panic@{}", loc), format!("a service thread panicked during live discovery: {}", fp.message), json!({"family": "live", "idx": 0}));
     }
+    super::common::report_lock_discipline(ctx, "discovered-equals-announced", "live");
     rt.shutdown_timeout(std::time::Duration::from_millis(200));
 }
 
